@@ -12,6 +12,7 @@
 import RenetVerif.Transport.Glue
 import RenetVerif.Lemmas.ServerLemmas
 import RenetVerif.Lemmas.ConnInv
+import RenetVerif.Lemmas.NcWire
 namespace RenetVerif.GI
 open RenetVerif RenetVerif.Netcode RenetVerif.Transport
 
@@ -368,26 +369,33 @@ theorem processPacket_tstep {a : AEAD} {s s' : NetcodeServer} {addr : Addr} {buf
     exact hp
   | panic m => rw [hx] at h; cases h
 
-/-- the same for the infallible-by-type calls -/
-def PostE (cl : Slots) : Res Empty (ServerResult × NetcodeServer) → Prop
-  | .ok (r, s') => TStep cl s'.clients r
+/-- `update_client(id)` reports nothing but a disconnect of `id` itself -/
+def UCShape (id : Nat) : ServerResult → Prop
+  | .payload _ _ => False
+  | .clientConnected _ _ _ _ => False
+  | .clientDisconnected i _ _ => i = id
+  | .none => True
+  | .packetToSend _ _ => True
+
+def PostE (cl : Slots) (id : Nat) : Res Empty (ServerResult × NetcodeServer) → Prop
+  | .ok (r, s') => TStep cl s'.clients r ∧ UCShape id r
   | _ => True
 
-theorem postE_bind {α : Type} {cl : Slots} {x : Res Empty α} {f : α → Res Empty (ServerResult × NetcodeServer)}
-    (hf : ∀ v, x = .ok v → PostE cl (f v)) : PostE cl (x >>= f) := by
+theorem postE_bind {α : Type} {cl : Slots} {id : Nat} {x : Res Empty α} {f : α → Res Empty (ServerResult × NetcodeServer)}
+    (hf : ∀ v, x = .ok v → PostE cl id (f v)) : PostE cl id (x >>= f) := by
   cases x with
   | ok v => exact hf v rfl
   | err e => exact e.elim
   | panic m => trivial
 
-theorem updateClient_post (a : AEAD) (s : NetcodeServer) (id : Nat) : PostE s.clients (s.updateClient a id) := by
+theorem updateClient_post (a : AEAD) (s : NetcodeServer) (id : Nat) : PostE s.clients id (s.updateClient a id) := by
   unfold NetcodeServer.updateClient
   split
-  · exact rfl
+  · exact ⟨rfl, trivial⟩
   rename_i slot hslot
   obtain ⟨c, hat, hid⟩ := findSlot_some hslot
   split
-  · exact rfl
+  · exact ⟨rfl, trivial⟩
   rename_i client hget
   have hc : client = c := by
     have := getD_eq hget
@@ -405,18 +413,19 @@ theorem updateClient_post (a : AEAD) (s : NetcodeServer) (id : Nat) : PostE s.cl
   split
   · split
     · trivial
-    · exact hdis none
+    · exact ⟨hdis none, rfl⟩
     · rename_i out _
-      exact hdis (some out)
+      exact ⟨hdis (some out), rfl⟩
   · generalize (durAdd client1.lastPacketSendTime C.NETCODE_SEND_RATE_NS "server.rs update_client: last_packet_send_time + SEND_RATE" : Res Empty Nat) = x
     apply postE_bind
     intro due _
     split
     · split
       · trivial
-      · exact rfl
+      · exact ⟨rfl, trivial⟩
       · refine postE_bind (fun sq _ => ?_)
         extract_lets client2
+        refine ⟨?_, trivial⟩
         show ids (s.clients.set slot (some client2)) = ids s.clients
         refine ids_set_same hat ?_
         show [client1.clientId] = [client.clientId]
@@ -424,13 +433,19 @@ theorem updateClient_post (a : AEAD) (s : NetcodeServer) (id : Nat) : PostE s.cl
           show (if timedOut = true then _ else _ : Connection).clientId = _
           split <;> rfl
         rw [this]
-    · exact rfl
+    · exact ⟨rfl, trivial⟩
 
 theorem updateClient_tstep {a : AEAD} {s s' : NetcodeServer} {id : Nat} {r : ServerResult}
     (h : s.updateClient a id = .ok (r, s')) : TStep s.clients s'.clients r := by
   have hp := updateClient_post a s id
   rw [h] at hp
-  exact hp
+  exact hp.1
+
+theorem updateClient_shape {a : AEAD} {s s' : NetcodeServer} {id : Nat} {r : ServerResult}
+    (h : s.updateClient a id = .ok (r, s')) : UCShape id r := by
+  have hp := updateClient_post a s id
+  rw [h] at hp
+  exact hp.2
 
 /-- **`disconnect(id)`**: a known id is removed and reported `ClientDisconnected id`; an unknown id is a no-op -/
 theorem disconnect_spec {a : AEAD} {s s' : NetcodeServer} {id : Nat} {r : ServerResult}
@@ -875,7 +890,7 @@ theorem disconnectLoop_spec (a : AEAD) :
     (∀ j, j ∉ l → SMap.find? g'.renet.conns j = SMap.find? g.renet.conns j)
   | [], g, g', out, out', h, hl => by
     cases h
-    exact ⟨fun j hj => by cases hj, fun j _ => rfl⟩
+    exact ⟨fun j hj => (by cases hj), fun j _ => rfl⟩
   | id :: rest, g, g', out, out', h, hl => by
     obtain ⟨r, ns, rs, out1, h1, h2, h3⟩ := handleLoop_cons h
     obtain ⟨ht, hin, hout⟩ := disconnect_spec h1
@@ -944,7 +959,9 @@ theorem serverUpdate_unfold {a : AEAD} {g g' : ServerGlue} {d : Nat} {inbox : Li
   unfold serverUpdate at h
   obtain ⟨ns0, h0, h⟩ := CI.bind_ok_cases h
   obtain ⟨⟨g1, out1⟩, h1, h⟩ := CI.bind_ok_cases h
+  dsimp only at h
   obtain ⟨⟨g2, out2⟩, h2, h3⟩ := CI.bind_ok_cases h
+  dsimp only at h3
   rw [recvLoop_eq] at h1
   rw [idLoop_eq] at h2 h3
   exact ⟨ns0, g1, out1, g2, out2, h0, h1, h2, h3⟩
@@ -1028,8 +1045,6 @@ theorem serverSendPackets_lockstep {a : AEAD} {g g' : ServerGlue} {out : Array D
     LockStep g' ∧ SL.QuietC g.renet.conns g'.renet.conns ∧ g'.renet.events = g.renet.events :=
   sendLoop_lockstep a _ g g' _ out h hl
 
-theorem noDead_of_quiet_sorted {m m' : SMap Conn} (q : SL.QuietC m m') : True := trivial
-
 /-! #### `disconnect_all` -/
 
 theorem smap_eq_nil_of_find {α : Type} {m : SMap α} (h : ∀ j, SMap.find? m j = none) : m = [] := by
@@ -1061,5 +1076,1274 @@ theorem serverDisconnectAll_lockstep {a : AEAD} {g g' : ServerGlue} {out : Array
   intro j hj
   have := (hl'.sync j).mpr hj
   simp [SMap.contains, hnone j] at this
+
+/-! #### any sequence of transport calls and application calls -/
+
+/-- the `RenetServer` calls an application may make: everything except the four that add or remove
+    connections themselves (`add_connection` / `remove_connection` are for transports only, the local-client
+    pair is a transport of its own) -/
+def appOp : SL.SrvOp → Bool
+  | .add _ => false
+  | .remove _ => false
+  | .newLocalClient _ => false
+  | .disconnectLocalClient _ _ => false
+  | _ => true
+
+theorem appOp_quiet {st st' : SL.SrvState} {op : SL.SrvOp} (ha : appOp op = true) (h : op.apply st = .ok st') :
+    SL.QuietC st.1.conns st'.1.conns ∧ SL.eventLog st' = SL.eventLog st := by
+  have key : ∀ {s' : Server} {p' : List Event}, SL.QuietC st.1.conns s'.conns → s'.events = st.1.events →
+      p' = st.2 → SL.QuietC st.1.conns s'.conns ∧ SL.eventLog (s', p') = SL.eventLog st := by
+    intro s' p' q e1 e2
+    exact ⟨q, by simp [SL.eventLog, e1, e2]⟩
+  obtain ⟨s, popped⟩ := st
+  cases op with
+  | add id => cases ha
+  | remove id => cases ha
+  | newLocalClient id => cases ha
+  | disconnectLocalClient id cl => cases ha
+  | disconnect id =>
+    cases h
+    exact key (SL.Server.disconnect_spec s id).2.1 (SL.Server.disconnect_spec s id).1.events rfl
+  | disconnectAll =>
+    cases h
+    exact key (SL.Server.disconnectAll_quiet s) rfl rfl
+  | broadcast ch m =>
+    obtain ⟨h1, h2⟩ := SL.keepPopped_ok h
+    obtain ⟨e, q, _⟩ := SL.Server.broadcast_spec h1
+    exact key q e h2
+  | broadcastExcept ex ch m =>
+    obtain ⟨h1, h2⟩ := SL.keepPopped_ok h
+    obtain ⟨e, q, _⟩ := SL.Server.broadcastExcept_spec h1
+    exact key q e h2
+  | update dt =>
+    obtain ⟨h1, h2⟩ := SL.keepPopped_ok h
+    obtain ⟨e, q, _⟩ := SL.Server.update_spec h1
+    exact key q e h2
+  | send id ch m =>
+    obtain ⟨h1, h2⟩ := SL.keepPopped_ok h
+    obtain ⟨ad, q, _⟩ := SL.Server.sendMessage_spec h1
+    exact key q ad.events h2
+  | receive id ch =>
+    obtain ⟨h1, h2⟩ := SL.keepPopped_ok h
+    obtain ⟨o, h3⟩ := SL.Res.stateOf_ok h1
+    obtain ⟨ad, q, _⟩ := SL.Server.receiveMessage_spec h3
+    exact key q ad.events h2
+  | getPacketsToSend id =>
+    obtain ⟨h1, h2⟩ := SL.keepPopped_ok h
+    obtain ⟨o, h3⟩ := SL.Res.stateOf_ok h1
+    obtain ⟨ad, q, _⟩ := SL.Server.getPacketsToSend_spec h3
+    exact key q ad.events h2
+  | processPacketFrom b id =>
+    obtain ⟨h1, h2⟩ := SL.keepPopped_ok h
+    obtain ⟨o, h3⟩ := SL.Res.stateOf_ok h1
+    obtain ⟨ad, q, _⟩ := SL.Server.processPacketFrom_spec h3
+    exact key q ad.events h2
+  | processLocalClient id cl =>
+    obtain ⟨h1, h2⟩ := SL.keepPopped_ok h
+    obtain ⟨o, h3⟩ := SL.Res.stateOf_ok h1
+    obtain ⟨cl', ok⟩ := o
+    obtain ⟨ad, q⟩ := SL.Server.processLocalClient_spec h3
+    exact key q ad.events h2
+  | getEvent =>
+    cases h
+    refine ⟨?_, ?_⟩
+    · show SL.QuietC s.conns (s.getEvent).1.conns
+      unfold Server.getEvent
+      split <;> exact SL.QuietC.refl _
+    · show SL.eventLog ((s.getEvent).1, popped ++ (s.getEvent).2.toList) = SL.eventLog (s, popped)
+      unfold Server.getEvent SL.eventLog
+      split
+      · rename_i he
+        have he' : s.events = [] := he
+        simp [he']
+      · rename_i e rest he
+        have he' : s.events = e :: rest := he
+        simp [he']
+
+/-- a transport call or an application call -/
+inductive GlueOp where
+  | update (d : Nat) (inbox : List Dgram)
+  | sendPackets
+  | disconnectAll
+  | app (op : SL.SrvOp)
+
+/-- the glue state and (ghost) the events the application has already taken with `get_event` -/
+abbrev GState := ServerGlue × List Event
+
+def GlueOp.apply (a : AEAD) (st : GState) : GlueOp → Res Empty GState
+  | .update d inbox => do
+    let (g, _) ← serverUpdate a st.1 d inbox
+    pure (g, st.2)
+  | .sendPackets => do
+    let (g, _) ← serverSendPackets a st.1
+    pure (g, st.2)
+  | .disconnectAll => do
+    let (g, _) ← serverDisconnectAll a st.1
+    pure (g, st.2)
+  | .app op => do
+    let st' ← op.apply (st.1.renet, st.2)
+    pure ({ st.1 with renet := st'.1 }, st'.2)
+
+def GlueOp.allowed : GlueOp → Bool
+  | .app op => appOp op
+  | _ => true
+
+def runGlue (a : AEAD) (st : GState) : List GlueOp → Res Empty GState
+  | [] => .ok st
+  | op :: rest =>
+    match op.apply a st with
+    | .ok st' => runGlue a st' rest
+    | .err e => .err e
+    | .panic m => .panic m
+
+/-- the invariant of the server side: lock-step, and the per-client alternation invariant of the event log -/
+def GInv (st : GState) : Prop := LockStep st.1 ∧ SL.SrvInv (st.1.renet, st.2)
+
+theorem handleLoop_srvInv {α : Type} {f : NetcodeServer → α → Res Empty (ServerResult × NetcodeServer)}
+    {l : List α} {g g' : ServerGlue} {out out' : Array Dgram} (h : handleLoop f g l out = .ok (g', out'))
+    (popped : List Event) (hi : SL.SrvInv (g.renet, popped)) : SL.SrvInv (g'.renet, popped) := by
+  obtain ⟨tr, _, t2, _⟩ := handleLoop_factor f popped l g g' out out' h
+  exact SL.runSrv_inv _ _ _ t2 hi
+
+theorem srvInv_of_quiet {rs rs' : Server} {popped : List Event} (q : SL.QuietC rs.conns rs'.conns)
+    (e : rs'.events = rs.events) (hi : SL.SrvInv (rs, popped)) : SL.SrvInv (rs', popped) :=
+  SL.Step.inv (st := (rs, popped)) (st' := (rs', popped)) (SL.Step.quiet_of q e rfl) hi
+
+theorem GlueOp.apply_inv {a : AEAD} {st st' : GState} {op : GlueOp} (h : op.apply a st = .ok st')
+    (ha : op.allowed = true) (hi : GInv st) : GInv st' ∧ (∀ d inbox, op = .update d inbox → NoDead st'.1.renet) := by
+  obtain ⟨g, popped⟩ := st
+  obtain ⟨hl, hs⟩ := hi
+  cases op with
+  | update d inbox =>
+    simp only [GlueOp.apply] at h
+    obtain ⟨⟨g1, out⟩, h1, h2⟩ := CI.bind_ok_cases h
+    cases h2
+    obtain ⟨hl', hnd⟩ := serverUpdate_lockstep h1 hl
+    refine ⟨⟨hl', ?_⟩, fun _ _ _ => hnd⟩
+    obtain ⟨ns0, ga, outa, gb, outb, _, l1, l2, l3⟩ := serverUpdate_unfold h1
+    exact handleLoop_srvInv l3 popped (handleLoop_srvInv l2 popped (handleLoop_srvInv l1 popped hs))
+  | sendPackets =>
+    simp only [GlueOp.apply] at h
+    obtain ⟨⟨g1, out⟩, h1, h2⟩ := CI.bind_ok_cases h
+    cases h2
+    obtain ⟨hl', q, e⟩ := serverSendPackets_lockstep h1 hl
+    exact ⟨⟨hl', srvInv_of_quiet q e hs⟩, fun _ _ hh => by cases hh⟩
+  | disconnectAll =>
+    simp only [GlueOp.apply] at h
+    obtain ⟨⟨g1, out⟩, h1, h2⟩ := CI.bind_ok_cases h
+    cases h2
+    obtain ⟨hl', _, _⟩ := serverDisconnectAll_lockstep h1 hl
+    refine ⟨⟨hl', ?_⟩, fun _ _ hh => by cases hh⟩
+    unfold serverDisconnectAll at h1
+    rw [idLoop_eq] at h1
+    exact handleLoop_srvInv h1 popped hs
+  | app sop =>
+    simp only [GlueOp.apply] at h
+    obtain ⟨st1, h1, h2⟩ := CI.bind_ok_cases h
+    cases h2
+    obtain ⟨q, _⟩ := appOp_quiet ha h1
+    refine ⟨⟨⟨hl.nodup, q.sorted hl.sorted, fun j => ?_⟩, (SL.SrvOp.apply_step h1).inv hs⟩, fun _ _ hh => by cases hh⟩
+    show SMap.contains st1.1.conns j = true ↔ _
+    rw [q.contains j]; exact hl.sync j
+
+theorem runGlue_inv (a : AEAD) : ∀ (ops : List GlueOp) (st st' : GState), runGlue a st ops = .ok st' →
+    (∀ op ∈ ops, op.allowed = true) → GInv st → GInv st'
+  | [], st, st', h, _, hi => by cases h; exact hi
+  | op :: rest, st, st', h, ha, hi => by
+    unfold runGlue at h
+    split at h
+    · rename_i st1 h1
+      exact runGlue_inv a rest st1 st' h (fun o ho => ha o (List.mem_cons_of_mem _ ho))
+        (GlueOp.apply_inv h1 (ha op List.mem_cons_self) hi).1
+    · cases h
+    · cases h
+
+theorem new_clientsId {now maxClients pid : Nat} {addrs : List Addr} {secure : Bool} {pk ck : Bytes} {ns : NetcodeServer}
+    (h : NetcodeServer.new now maxClients pid addrs secure pk ck = .ok ns) : ns.clientsId = [] := by
+  unfold NetcodeServer.new at h
+  split at h
+  · cases h
+  · cases h
+    exact ids_replicate_none _
+
+theorem gInv_fresh {ns : NetcodeServer} (h : ns.clientsId = []) (budget : Nat) (sc cc : List ChanCfg) :
+    GInv ({ netcode := ns, renet := Server.new budget sc cc }, []) := by
+  refine ⟨⟨?_, SL.SMap.sorted_nil, fun id => ?_⟩, SL.srvInv_new budget sc cc⟩
+  · show ns.clientsId.Nodup
+    rw [h]; exact List.nodup_nil
+  · show SMap.contains (Server.new budget sc cc).conns id = true ↔ id ∈ ns.clientsId
+    rw [h]; simp [Server.new, SMap.contains]
+
+/-! ## Part 4 : `update` factorised; the event log mirrors the netcode results -/
+
+/-- the netcode side of one `NetcodeServerTransport::update`: the clock step, then the results of
+    `process_packet` on the queued datagrams (`tr1`), of `update_client` on the ids connected at that point (`tr2`),
+    of `disconnect` on the ids renet holds disconnected at that point (`tr3`) -/
+structure UpdateTrace where
+  ns0 : NetcodeServer
+  tr1 : List ServerResult
+  ns1 : NetcodeServer
+  tr2 : List ServerResult
+  ns2 : NetcodeServer
+  rs2 : Server
+  tr3 : List ServerResult
+
+def UpdateTrace.all (T : UpdateTrace) : List ServerResult := T.tr1 ++ T.tr2 ++ T.tr3
+
+structure IsUpdateRun (a : AEAD) (g : ServerGlue) (d : Nat) (inbox : List Dgram) (g' : ServerGlue)
+    (out : Array Dgram) (popped : List Event) (T : UpdateTrace) : Prop where
+  clock : g.netcode.update d = .ok T.ns0
+  recv : ncTrace (ppF a) T.ns0 inbox = .ok (T.tr1, T.ns1)
+  ticks : ncTrace (ucF a) T.ns1 T.ns1.clientsId = .ok (T.tr2, T.ns2)
+  renet12 : SL.runSrv (g.renet, popped) ((T.tr1 ++ T.tr2).flatMap opOf) = .ok (T.rs2, popped)
+  dead : ncTrace (dcF a) T.ns2 T.rs2.disconnectionsId = .ok (T.tr3, g'.netcode)
+  renet3 : SL.runSrv (T.rs2, popped) (T.tr3.flatMap opOf) = .ok (g'.renet, popped)
+  sent : out.toList = T.all.flatMap dgOf
+
+theorem IsUpdateRun.renet {a : AEAD} {g g' : ServerGlue} {d : Nat} {inbox : List Dgram} {out : Array Dgram}
+    {popped : List Event} {T : UpdateTrace} (h : IsUpdateRun a g d inbox g' out popped T) :
+    SL.runSrv (g.renet, popped) (T.all.flatMap opOf) = .ok (g'.renet, popped) := by
+  unfold UpdateTrace.all
+  rw [List.flatMap_append]
+  exact runSrv_append _ _ _ _ _ h.renet12 h.renet3
+
+/-- **`update` factorised, and the event log.**  The netcode calls run on their own (`UpdateTrace`); renet receives
+    exactly the calls `opOf` of the netcode results, in order; the datagrams sent are exactly `dgOf` of the results, in
+    order; and in lock-step the events renet pushes are, in order, exactly the connects and disconnects netcode
+    reported, with the same ids. -/
+theorem serverUpdate_factor {a : AEAD} {g g' : ServerGlue} {d : Nat} {inbox : List Dgram} {out : Array Dgram}
+    (h : serverUpdate a g d inbox = .ok (g', out)) (popped : List Event) :
+    ∃ T, IsUpdateRun a g d inbox g' out popped T ∧
+      (LockStep g → ∃ new, g'.renet.events = g.renet.events ++ new ∧ new.map evKey = T.all.filterMap resKey) := by
+  obtain ⟨ns0, g1, out1, g2, out2, h0, l1, l2, l3⟩ := serverUpdate_unfold h
+  obtain ⟨tr1, t1, r1, o1⟩ := handleLoop_factor (ppF a) popped _ _ _ _ _ l1
+  obtain ⟨tr2, t2, r2, o2⟩ := handleLoop_factor (ucF a) popped _ _ _ _ _ l2
+  obtain ⟨tr3, t3, r3, o3⟩ := handleLoop_factor (dcF a) popped _ _ _ _ _ l3
+  refine ⟨⟨ns0, tr1, g1.netcode, tr2, g2.netcode, g2.renet, tr3⟩, ⟨h0, t1, t2, ?_, t3, r3, ?_⟩, ?_⟩
+  · rw [List.flatMap_append]
+    exact runSrv_append _ _ _ _ _ r1 r2
+  · rw [o3, o2, o1]
+    simp [UpdateTrace.all, List.flatMap_append]
+  · intro hl
+    have hl0 : LockStep { g with netcode := ns0 } := by
+      refine ⟨?_, hl.sorted, ?_⟩
+      · show (ids ns0.clients).Nodup
+        rw [update_clients h0]; exact hl.nodup
+      · intro id
+        show _ ↔ id ∈ ids ns0.clients
+        rw [update_clients h0]; exact hl.sync id
+    obtain ⟨hl1, n1, e1, k1⟩ := handleLoop_lockstep (ppF_tstep a) _ _ _ _ _ tr1 l1 t1 hl0
+    obtain ⟨hl2, n2, e2, k2⟩ := handleLoop_lockstep (ucF_tstep a) _ _ _ _ _ tr2 l2 t2 hl1
+    obtain ⟨hl3, n3, e3, k3⟩ := handleLoop_lockstep (dcF_tstep a) _ _ _ _ _ tr3 l3 t3 hl2
+    refine ⟨n1 ++ n2 ++ n3, ?_, ?_⟩
+    · rw [e3, e2, e1]; simp
+    · simp only [UpdateTrace.all, List.map_append, List.filterMap_append, k1, k2, k3]
+
+theorem ncTrace_mem {α : Type} {f : NetcodeServer → α → Res Empty (ServerResult × NetcodeServer)} :
+    ∀ {l : List α} {ns ns' : NetcodeServer} {tr : List ServerResult}, ncTrace f ns l = .ok (tr, ns') →
+    ∀ r ∈ tr, ∃ nsA x nsB, x ∈ l ∧ f nsA x = .ok (r, nsB)
+  | [], ns, ns', tr, h, r, hr => by
+    cases h; cases hr
+  | x :: rest, ns, ns', tr, h, r, hr => by
+    simp only [ncTrace] at h
+    obtain ⟨⟨r0, ns1⟩, h1, h2⟩ := CI.bind_ok_cases h
+    obtain ⟨⟨tr1, ns2⟩, h3, h4⟩ := CI.bind_ok_cases h2
+    simp only [Res.pure_eq, Res.ok.injEq, Prod.mk.injEq] at h4
+    obtain ⟨e1, e2⟩ := h4
+    subst e1; subst e2
+    rcases List.mem_cons.mp hr with e | e
+    · subst e
+      exact ⟨ns, x, ns1, List.mem_cons_self, h1⟩
+    · obtain ⟨nsA, y, nsB, hy, hf⟩ := ncTrace_mem h3 r e
+      exact ⟨nsA, y, nsB, List.mem_cons_of_mem _ hy, hf⟩
+
+/-! ## Part 5 : payload routing -/
+
+theorem mem_flatMap_opOf_ppf {tr : List ServerResult} {b : Bytes} {id : Nat}
+    (h : SL.SrvOp.processPacketFrom b id ∈ tr.flatMap opOf) : ServerResult.payload id b ∈ tr := by
+  obtain ⟨r, hr, hm⟩ := List.mem_flatMap.mp h
+  cases r with
+  | payload i p =>
+    simp only [opOf, List.mem_singleton, SL.SrvOp.processPacketFrom.injEq] at hm
+    obtain ⟨e1, e2⟩ := hm
+    subst e1; subst e2
+    exact hr
+  | none => simp [opOf] at hm
+  | packetToSend ad p => simp [opOf] at hm
+  | clientConnected i ad ud p => simp [opOf] at hm
+  | clientDisconnected i ad p => simp [opOf] at hm
+
+/-- **routing, inbound.**  Every `(bytes, id)` that one `update` hands to `RenetServer::process_packet_from` is a
+    payload that `NetcodeServer::process_packet` returned as `Payload{client_id = id}` for one of the queued datagrams,
+    `id` being in the netcode table at that moment. -/
+theorem serverUpdate_routing {a : AEAD} {g g' : ServerGlue} {d : Nat} {inbox : List Dgram} {out : Array Dgram}
+    {popped : List Event} {T : UpdateTrace} (hr : IsUpdateRun a g d inbox g' out popped T) {b : Bytes} {id : Nat}
+    (h : SL.SrvOp.processPacketFrom b id ∈ T.all.flatMap opOf) :
+    ∃ (nsA : NetcodeServer) (dg : Dgram) (nsB : NetcodeServer), dg ∈ inbox ∧
+      nsA.processPacket a dg.1 dg.2 = .ok (.payload id b, nsB) ∧ id ∈ nsA.clientsId := by
+  have hm := mem_flatMap_opOf_ppf h
+  unfold UpdateTrace.all at hm
+  rcases List.mem_append.mp hm with hm | hm
+  · rcases List.mem_append.mp hm with hm | hm
+    · obtain ⟨nsA, dg, nsB, hdg, hf⟩ := ncTrace_mem hr.recv _ hm
+      exact ⟨nsA, dg, nsB, hdg, hf, (processPacket_tstep hf).2⟩
+    · obtain ⟨nsA, x, nsB, _, hf⟩ := ncTrace_mem hr.ticks _ hm
+      exact absurd (updateClient_shape hf) (by simp [UCShape])
+  · obtain ⟨nsA, x, nsB, _, hf⟩ := ncTrace_mem hr.dead _ hm
+    obtain ⟨_, hin, hout⟩ := disconnect_spec hf
+    by_cases hx : x ∈ ids nsA.clients
+    · obtain ⟨ad, p, e⟩ := hin hx; cases e
+    · cases (hout hx).1
+
+/-- what `generate_payload_packet(id, ·)` makes of the packets `ps`, in order, threading the netcode state;
+    the first error abandons the rest -/
+inductive Sealed (a : AEAD) (id : Nat) : NetcodeServer → List Bytes → List Dgram → NetcodeServer → Prop
+  | nil (ns : NetcodeServer) : Sealed a id ns [] [] ns
+  | abandon {ns : NetcodeServer} {p : Bytes} {ps : List Bytes} {e : NetcodeError} :
+      ns.generatePayloadPacket a id p = .err e → Sealed a id ns (p :: ps) [] ns
+  | cons {ns ns1 ns2 : NetcodeServer} {p : Bytes} {ps : List Bytes} {d : Dgram} {ds : List Dgram} :
+      ns.generatePayloadPacket a id p = .ok (d, ns1) → Sealed a id ns1 ps ds ns2 →
+      Sealed a id ns (p :: ps) (d :: ds) ns2
+
+theorem sendClient_sealed (a : AEAD) (id : Nat) :
+    ∀ (ps : List Bytes) (ns ns' : NetcodeServer) (out out' : Array Dgram),
+    serverSendClient a ns id ps out = .ok (ns', out') →
+    ∃ ds, out'.toList = out.toList ++ ds ∧ Sealed a id ns ps ds ns'
+  | [], ns, ns', out, out', h => by
+    cases h
+    exact ⟨[], by simp, .nil ns⟩
+  | p :: rest, ns, ns', out, out', h => by
+    simp only [serverSendClient] at h
+    split at h
+    · cases h
+    · rename_i e he
+      cases h
+      exact ⟨[], by simp, .abandon he⟩
+    · rename_i addr dg ns1 hg
+      obtain ⟨ds, e1, e2⟩ := sendClient_sealed a id rest ns1 ns' _ out' h
+      exact ⟨(addr, dg) :: ds, by rw [e1]; simp, .cons hg e2⟩
+
+/-- one `send_packets`: for each id of the list, renet's `get_packets_to_send(id)` returned `ps` and the datagrams
+    sent for it are `Sealed … ps` -/
+inductive SendRun (a : AEAD) : ServerGlue → List Nat → List Dgram → ServerGlue → Prop
+  | nil (g : ServerGlue) : SendRun a g [] [] g
+  | cons {g g' : ServerGlue} {id : Nat} {rest : List Nat} {rs : Server} {ps : List Bytes} {ds ds' : List Dgram}
+      {ns : NetcodeServer} :
+      g.renet.getPacketsToSend id = .ok (rs, some ps) → Sealed a id g.netcode ps ds ns →
+      SendRun a { netcode := ns, renet := rs } rest ds' g' → SendRun a g (id :: rest) (ds ++ ds') g'
+
+theorem sendLoop_run (a : AEAD) : ∀ (l : List Nat) (g g' : ServerGlue) (out out' : Array Dgram),
+    serverSendLoop a g l out = .ok (g', out') → ∃ ds, out'.toList = out.toList ++ ds ∧ SendRun a g l ds g'
+  | [], g, g', out, out', h => by
+    cases h
+    exact ⟨[], by simp, .nil g⟩
+  | id :: rest, g, g', out, out', h => by
+    obtain ⟨rs, ps, ns, out1, h1, h2, h3⟩ := sendLoop_cons h
+    obtain ⟨ds, e1, s1⟩ := sendClient_sealed a id ps _ _ _ _ h2
+    obtain ⟨ds', e2, s2⟩ := sendLoop_run a rest _ g' out1 out' h3
+    exact ⟨ds ++ ds', by rw [e2, e1, List.append_assoc], .cons h1 s1 s2⟩
+
+theorem Sealed.mem {a : AEAD} {id : Nat} {ns ns' : NetcodeServer} {ps : List Bytes} {ds : List Dgram}
+    (h : Sealed a id ns ps ds ns') : ∀ d ∈ ds, ∃ (p : Bytes) (nsA nsB : NetcodeServer), p ∈ ps ∧ nsA.generatePayloadPacket a id p = .ok (d, nsB) := by
+  induction h with
+  | nil ns => intro d hd; cases hd
+  | abandon he => intro d hd; cases hd
+  | cons hg _ ih =>
+    intro d hd
+    rcases List.mem_cons.mp hd with e | e
+    · subst e
+      exact ⟨_, _, _, List.mem_cons_self, hg⟩
+    · obtain ⟨p, nsA, nsB, hp, hf⟩ := ih d e
+      exact ⟨p, nsA, nsB, List.mem_cons_of_mem _ hp, hf⟩
+
+/-- **routing, outbound.**  Every datagram one `send_packets` sends is `generate_payload_packet(id, p)` for a connected
+    renet client `id` and a packet `p` that `RenetServer::get_packets_to_send(id)` returned in this call. -/
+theorem SendRun.mem {a : AEAD} {g g' : ServerGlue} {l : List Nat} {ds : List Dgram} (h : SendRun a g l ds g') :
+    ∀ d ∈ ds, ∃ (id : Nat) (rsA rsB : Server) (ps : List Bytes) (p : Bytes) (nsA nsB : NetcodeServer), id ∈ l ∧
+      rsA.getPacketsToSend id = .ok (rsB, some ps) ∧ p ∈ ps ∧ nsA.generatePayloadPacket a id p = .ok (d, nsB) := by
+  induction h with
+  | nil g => intro d hd; cases hd
+  | cons h1 s1 _ ih =>
+    intro d hd
+    rcases List.mem_append.mp hd with e | e
+    · obtain ⟨p, nsA, nsB, hp, hf⟩ := s1.mem d e
+      exact ⟨_, _, _, _, p, nsA, nsB, List.mem_cons_self, h1, hp, hf⟩
+    · obtain ⟨id, rsA, rsB, ps, p, nsA, nsB, hid, hg, hp, hf⟩ := ih d e
+      exact ⟨id, rsA, rsB, ps, p, nsA, nsB, List.mem_cons_of_mem _ hid, hg, hp, hf⟩
+
+theorem serverSendPackets_run {a : AEAD} {g g' : ServerGlue} {out : Array Dgram}
+    (h : serverSendPackets a g = .ok (g', out)) : SendRun a g g.renet.clientsId out.toList g' := by
+  obtain ⟨ds, e, s⟩ := sendLoop_run a _ g g' _ out h
+  simp only [List.nil_append] at e
+  rw [e]; exact s
+
+/-! ## Part 6 : the client glue -/
+
+/-- `RenetClient` status the transport sets at the start of an `update` (step 3) -/
+def mirror (g : ClientGlue) : Conn :=
+  if g.netcode.isConnected then g.renet.setConnected
+  else if g.netcode.isConnecting then g.renet.setConnecting else g.renet
+
+/-- **client, netcode session over** (denied, timed out, `Disconnect` datagram received, `transport.disconnect()`):
+    `RenetClient::disconnect_due_to_transport()`, the socket is not read, nothing is sent, the call reports the netcode
+    reason -/
+theorem clientUpdate_netcode_disconnected {a : AEAD} {g : ClientGlue} {reason : DisconnectReason}
+    (hn : g.netcode.disconnectReason = some reason) (d : Nat) (inbox : List Dgram) :
+    clientUpdate a g d inbox =
+      .ok ⟨.error (.netcode (.disconnected reason)), { g with renet := g.renet.disconnectWith .transport }, #[], inbox⟩ := by
+  unfold clientUpdate
+  rw [hn]
+  rfl
+
+/-- the renet client is then disconnected; with reason `Transport` unless it already was disconnected -/
+theorem disconnect_due_to_transport_status (c : Conn) :
+    (c.disconnectWith .transport).isDisconnected = true ∧
+    (c.disconnectWith .transport).status = if c.isDisconnected then c.status else .disconnected .transport :=
+  ⟨SL.Conn.disconnectWith_isDisconnected c _, SL.Conn.disconnectWith_status c _⟩
+
+/-- **client, the application called `RenetClient::disconnect()`** (or a channel error disconnected it): the netcode
+    client is told to disconnect — whatever its state — and its `Disconnect` datagram is sent; the socket is not read -/
+theorem clientUpdate_renet_disconnected {a : AEAD} {g : ClientGlue} {error : Reason}
+    (hn : g.netcode.disconnectReason = none) (hr : g.renet.disconnectReason = some error) (d : Nat) (inbox : List Dgram) :
+    clientUpdate a g d inbox =
+      match (g.netcode.disconnect a).1 with
+      | .panic m => .panic m
+      | .err e => .ok ⟨.error (.netcode e), { g with netcode := (g.netcode.disconnect a).2 }, #[], inbox⟩
+      | .ok (addr, pkt) =>
+        .ok ⟨.error (.renet error), { g with netcode := (g.netcode.disconnect a).2 }, #[(addr, pkt)], inbox⟩ := by
+  unfold clientUpdate
+  rw [hn, hr]
+  dsimp only
+  generalize NetcodeClient.disconnect a g.netcode = x
+  obtain ⟨r, nc⟩ := x
+  cases r with
+  | ok v => obtain ⟨addr, pkt⟩ := v; rfl
+  | err e => rfl
+  | panic m => rfl
+
+theorem netcodeClient_disconnect_state (a : AEAD) (nc : NetcodeClient) :
+    (nc.disconnect a).2.state = .disconnected .disconnectedByClient ∧ (nc.disconnect a).2.isDisconnected = true ∧
+    (nc.disconnect a).2.disconnectReason = some .disconnectedByClient := ⟨rfl, rfl, rfl⟩
+
+theorem netcodeClient_disconnect_packet {a : AEAD} {nc : NetcodeClient} {addr : Addr} {pkt : Bytes}
+    (h : (nc.disconnect a).1 = .ok (addr, pkt)) :
+    addr = nc.serverAddr ∧
+    Packet.disconnect.encode a C.NETCODE_MAX_PACKET_BYTES nc.connectToken.protocolId
+      (some (nc.sequence, nc.connectToken.clientToServerKey)) = .ok pkt := by
+  unfold NetcodeClient.disconnect at h
+  dsimp only at h
+  obtain ⟨out, h1, h2⟩ := CI.bind_ok_cases h
+  simp only [Res.pure_eq, Res.ok.injEq, Prod.mk.injEq] at h2
+  exact ⟨h2.1.symm, by rw [← h2.2]; exact h1⟩
+
+/-- **client, session alive**: status mirrored, socket drained through netcode into renet, then the netcode tick -/
+theorem clientUpdate_alive {a : AEAD} {g : ClientGlue}
+    (hn : g.netcode.disconnectReason = none) (hr : g.renet.disconnectReason = none) (d : Nat) (inbox : List Dgram) :
+    clientUpdate a g d inbox = (do
+      let g1 ← clientRecvLoop a { g with renet := mirror g } inbox
+      let (o, nc) ← g1.netcode.update a d
+      match o with
+      | some (pkt, addr) => pure ⟨.ok (), { g1 with netcode := nc }, #[(addr, pkt)], []⟩
+      | none => pure ⟨.ok (), { g1 with netcode := nc }, #[], []⟩) := by
+  unfold clientUpdate
+  rw [hn, hr]
+  rfl
+
+/-- the status after step 3: `Connected` iff netcode is connected, else `Connecting` -/
+theorem mirror_status {g : ClientGlue} (hn : g.netcode.disconnectReason = none) (hr : g.renet.disconnectReason = none) :
+    (mirror g).status = if g.netcode.isConnected then .connected else .connecting := by
+  have hd : g.renet.isDisconnected = false := by
+    unfold Conn.disconnectReason at hr
+    unfold Conn.isDisconnected
+    split at hr
+    · cases hr
+    · rfl
+  unfold mirror
+  split
+  · simp [Conn.setConnected, hd]
+  · rename_i hc
+    have hcg : g.netcode.isConnecting = true := by
+      unfold NetcodeClient.disconnectReason at hn
+      unfold NetcodeClient.isConnected at hc
+      unfold NetcodeClient.isConnecting
+      cases hs : g.netcode.state <;> simp [hs] at hn hc ⊢
+    rw [if_pos hcg]
+    simp [Conn.setConnecting, hd]
+
+/-- the netcode half of the client's receive loop on its own: the payloads it surfaces, in order -/
+def clientPayloads (a : AEAD) (nc : NetcodeClient) : List Dgram → Res Empty (List Bytes × NetcodeClient)
+  | [] => pure ([], nc)
+  | (addr, buf) :: rest =>
+    if addr ≠ nc.serverAddr then clientPayloads a nc rest else do
+    let (p, nc1) ← nc.processPacket a buf
+    let (ps, nc2) ← clientPayloads a nc1 rest
+    pure (p.toList ++ ps, nc2)
+
+/-- **client routing, inbound**: what is fed to `RenetClient::process_packet` is exactly the sequence of payloads
+    `NetcodeClient::process_packet` surfaced for the datagrams that came from the server address, in order -/
+theorem clientRecvLoop_factor (a : AEAD) : ∀ (l : List Dgram) (g g' : ClientGlue), clientRecvLoop a g l = .ok g' →
+    ∃ ps, clientPayloads a g.netcode l = .ok (ps, g'.netcode) ∧ Server.feedClient g.renet ps = .ok g'.renet
+  | [], g, g', h => by
+    cases h
+    exact ⟨[], rfl, rfl⟩
+  | (addr, buf) :: rest, g, g', h => by
+    simp only [clientRecvLoop] at h
+    split at h
+    · rename_i hne
+      obtain ⟨ps, h1, h2⟩ := clientRecvLoop_factor a rest g g' h
+      exact ⟨ps, by simp only [clientPayloads, if_pos hne]; exact h1, h2⟩
+    · rename_i heq
+      obtain ⟨⟨p, nc⟩, h1, h2⟩ := CI.bind_ok_cases h
+      cases p with
+      | none =>
+        dsimp only at h2
+        obtain ⟨ps, h3, h4⟩ := clientRecvLoop_factor a rest _ g' h2
+        refine ⟨ps, ?_, h4⟩
+        simp only [clientPayloads, if_neg heq, h1, Res.bind_ok]
+        have h3' : clientPayloads a nc rest = .ok (ps, g'.netcode) := h3
+        rw [h3']; rfl
+      | some p =>
+        dsimp only at h2
+        obtain ⟨rc, h5, h6⟩ := CI.bind_ok_cases h2
+        obtain ⟨ps, h3, h4⟩ := clientRecvLoop_factor a rest _ g' h6
+        refine ⟨p :: ps, ?_, ?_⟩
+        · simp only [clientPayloads, if_neg heq, h1, Res.bind_ok]
+          have h3' : clientPayloads a nc rest = .ok (ps, g'.netcode) := h3
+          rw [h3']; rfl
+        · simp only [Server.feedClient, h5, Res.bind_ok]
+          exact h4
+
+/-- `send_packets` of the client: refused while netcode is disconnected -/
+theorem clientSendPackets_disconnected {a : AEAD} {g : ClientGlue} {reason : DisconnectReason}
+    (hn : g.netcode.disconnectReason = some reason) :
+    clientSendPackets a g = .ok (.error (.netcode (.disconnected reason)), g, #[]) := by
+  unfold clientSendPackets
+  rw [hn]
+  rfl
+
+/-- what `NetcodeClient::generate_payload_packet` makes of the packets `ps`, in order; the first error ends the call -/
+inductive CSealed (a : AEAD) : NetcodeClient → List Bytes → List Dgram → NetcodeClient → Option NetcodeError → Prop
+  | nil (nc : NetcodeClient) : CSealed a nc [] [] nc none
+  | stop {nc : NetcodeClient} {p : Bytes} {ps : List Bytes} {e : NetcodeError} :
+      nc.generatePayloadPacket a p = .err e → CSealed a nc (p :: ps) [] nc (some e)
+  | cons {nc nc1 nc2 : NetcodeClient} {p : Bytes} {ps : List Bytes} {d : Dgram} {ds : List Dgram}
+      {e : Option NetcodeError} :
+      nc.generatePayloadPacket a p = .ok (d, nc1) → CSealed a nc1 ps ds nc2 e → CSealed a nc (p :: ps) (d :: ds) nc2 e
+
+theorem clientSendLoop_sealed (a : AEAD) : ∀ (ps : List Bytes) (nc nc' : NetcodeClient) (out out' : Array Dgram)
+    (e : Option NetcodeError), clientSendLoop a nc ps out = .ok (e, nc', out') →
+    ∃ ds, out'.toList = out.toList ++ ds ∧ CSealed a nc ps ds nc' e
+  | [], nc, nc', out, out', e, h => by
+    cases h
+    exact ⟨[], by simp, .nil nc⟩
+  | p :: rest, nc, nc', out, out', e, h => by
+    simp only [clientSendLoop] at h
+    split at h
+    · cases h
+    · rename_i e0 he
+      cases h
+      exact ⟨[], by simp, .stop he⟩
+    · rename_i addr dg nc1 hg
+      obtain ⟨ds, e1, e2⟩ := clientSendLoop_sealed a rest nc1 nc' _ out' e h
+      exact ⟨(addr, dg) :: ds, by rw [e1]; simp, .cons hg e2⟩
+
+/-- **client routing, outbound**: every datagram sent wraps, in order, a packet `RenetClient::get_packets_to_send`
+    returned; the call fails with the first netcode error -/
+theorem clientSendPackets_alive {a : AEAD} {g g' : ClientGlue} {res : Except TransportError Unit} {out : Array Dgram}
+    (hn : g.netcode.disconnectReason = none) (h : clientSendPackets a g = .ok (res, g', out)) :
+    ∃ ps e, g.renet.getPacketsToSend = .ok (g'.renet, ps) ∧ CSealed a g.netcode ps out.toList g'.netcode e ∧
+      res = match e with | some e => .error (.netcode e) | none => .ok () := by
+  unfold clientSendPackets at h
+  rw [hn] at h
+  dsimp only at h
+  obtain ⟨⟨rc, ps⟩, h1, h2⟩ := CI.bind_ok_cases h
+  obtain ⟨⟨e, nc, o⟩, h3, h4⟩ := CI.bind_ok_cases h2
+  obtain ⟨ds, e1, e2⟩ := clientSendLoop_sealed a ps _ _ _ _ e h3
+  simp only [List.nil_append] at e1
+  cases e with
+  | none =>
+    simp only [Res.pure_eq, Res.ok.injEq, Prod.mk.injEq] at h4
+    obtain ⟨r1, r2, r3⟩ := h4
+    subst r1; subst r2; subst r3
+    exact ⟨ps, none, h1, by rw [e1]; exact e2, rfl⟩
+  | some e =>
+    simp only [Res.pure_eq, Res.ok.injEq, Prod.mk.injEq] at h4
+    obtain ⟨r1, r2, r3⟩ := h4
+    subst r1; subst r2; subst r3
+    exact ⟨ps, some e, h1, by rw [e1]; exact e2, rfl⟩
+
+/-- `NetcodeClientTransport::disconnect()` -/
+theorem clientDisconnect_spec (a : AEAD) (g : ClientGlue) :
+    clientDisconnect a g =
+      if g.netcode.isDisconnected then .ok (g, #[]) else
+      match (g.netcode.disconnect a).1 with
+      | .panic m => .panic m
+      | .err _ => .ok ({ g with netcode := (g.netcode.disconnect a).2 }, #[])
+      | .ok (addr, pkt) => .ok ({ g with netcode := (g.netcode.disconnect a).2 }, #[(addr, pkt)]) := by
+  unfold clientDisconnect
+  split
+  · rfl
+  · rfl
+
+/-! ## Part 7 : no unwinding -/
+
+/-- `NetcodeServer::disconnect` never unwinds (the `take().unwrap()` is guarded by the slot search) -/
+theorem disconnect_total (a : AEAD) (s : NetcodeServer) (id : Nat) : ∃ r s', s.disconnect a id = .ok (r, s') := by
+  unfold NetcodeServer.disconnect
+  split
+  · exact ⟨_, _, rfl⟩
+  rename_i slot hslot
+  obtain ⟨c, hat, _⟩ := findSlot_some hslot
+  have hg : s.clients.getD slot none = some c := by
+    rw [List.getD_eq_getElem?_getD, hat]; rfl
+  rw [hg]
+  dsimp only
+  split
+  · rename_i m hm
+    exact absurd hm (Packet.encode_no_panic a _ _ _ _ m)
+  · exact ⟨_, _, rfl⟩
+  · exact ⟨_, _, rfl⟩
+
+/-- one of the netcode server calls the glue makes unwound with message `m` (`disconnect` never does) -/
+inductive NcPanic (a : AEAD) (m : String) : Prop
+  | update (ns : NetcodeServer) (d : Nat) : ns.update d = .panic m → NcPanic a m
+  | processPacket (ns : NetcodeServer) (addr : Addr) (buf : Bytes) : ns.processPacket a addr buf = .panic m → NcPanic a m
+  | updateClient (ns : NetcodeServer) (id : Nat) : ns.updateClient a id = .panic m → NcPanic a m
+  | generatePayloadPacket (ns : NetcodeServer) (id : Nat) (p : Bytes) :
+      ns.generatePayloadPacket a id p = .panic m → NcPanic a m
+
+/-- `handle_server_result` never unwinds on a renet server satisfying its invariant, and keeps the invariant -/
+theorem handle_total {P : SliceCtor → Prop} (hP : GoodP P) {rs : Server} (hi : rs.InvP P) (r : ServerResult)
+    (out : Array Dgram) : ∃ rs' out', handleServerResult r rs out = .ok (rs', out') ∧ rs'.InvP P := by
+  cases r with
+  | none => exact ⟨rs, out, rfl, hi⟩
+  | packetToSend addr p => exact ⟨rs, _, rfl, hi⟩
+  | payload id p =>
+    obtain ⟨rs', ok, e, hi', _⟩ := CI.server_processPacketFrom_totalP hP hi p id
+    exact ⟨rs', out, by simp only [handleServerResult, e, Res.bind_ok, Res.pure_eq], hi'⟩
+  | clientConnected id addr ud p => exact ⟨_, _, rfl, CI.server_addConnection_invP hi id⟩
+  | clientDisconnected id addr p =>
+    cases p with
+    | none => exact ⟨_, _, rfl, CI.server_removeConnection_invP hi id⟩
+    | some p => exact ⟨_, _, rfl, CI.server_removeConnection_invP hi id⟩
+
+theorem handleLoop_inv {P : SliceCtor → Prop} (hP : GoodP P) {α : Type}
+    {f : NetcodeServer → α → Res Empty (ServerResult × NetcodeServer)} :
+    ∀ (l : List α) (g g' : ServerGlue) (out out' : Array Dgram), handleLoop f g l out = .ok (g', out') →
+    g.renet.InvP P → g'.renet.InvP P
+  | [], g, g', out, out', h, hi => by cases h; exact hi
+  | x :: rest, g, g', out, out', h, hi => by
+    obtain ⟨r, ns, rs, out1, h1, h2, h3⟩ := handleLoop_cons h
+    obtain ⟨rs', out1', e, hi'⟩ := handle_total hP hi r out
+    rw [e] at h2
+    simp only [Res.ok.injEq, Prod.mk.injEq] at h2
+    obtain ⟨e1, e2⟩ := h2
+    subst e1; subst e2
+    exact handleLoop_inv hP rest _ g' _ out' h3 hi'
+
+/-- a loop unwinds only if its netcode call does -/
+theorem handleLoop_panic {P : SliceCtor → Prop} (hP : GoodP P) {α : Type}
+    {f : NetcodeServer → α → Res Empty (ServerResult × NetcodeServer)} :
+    ∀ (l : List α) (g : ServerGlue) (out : Array Dgram) (m : String), g.renet.InvP P →
+    handleLoop f g l out = .panic m → ∃ ns x, f ns x = .panic m
+  | [], g, out, m, hi, h => by cases h
+  | x :: rest, g, out, m, hi, h => by
+    cases hf : f g.netcode x with
+    | ok v =>
+      obtain ⟨r, ns⟩ := v
+      obtain ⟨rs', out', e, hi'⟩ := handle_total hP hi r out
+      simp only [handleLoop, hf, Res.bind_ok, e] at h
+      exact handleLoop_panic hP rest _ out' m hi' h
+    | err e => exact e.elim
+    | panic m' =>
+      simp only [handleLoop, hf, Res.bind_panic, Res.panic.injEq] at h
+      subst h
+      exact ⟨_, _, hf⟩
+
+theorem res_cases {α : Type} (x : Res Empty α) : (∃ v, x = .ok v) ∨ (∃ m, x = .panic m) := by
+  cases x with
+  | ok v => exact Or.inl ⟨v, rfl⟩
+  | err e => exact e.elim
+  | panic m => exact Or.inr ⟨m, rfl⟩
+
+/-- **`update` (server), partial.**  With the renet server in its invariant, `NetcodeServerTransport::update` unwinds only
+    if one of the netcode calls it makes unwinds (with the same message): neither the glue nor renet — for any datagrams
+    whatever — contributes an unwinding of its own.  (Assumed / not shown here: the netcode calls themselves.) -/
+theorem serverUpdate_panic_partial {P : SliceCtor → Prop} (hP : GoodP P) {a : AEAD} {g : ServerGlue} {d : Nat}
+    {inbox : List Dgram} {m : String} (hi : g.renet.InvP P) (h : serverUpdate a g d inbox = .panic m) :
+    NcPanic a m := by
+  simp only [serverUpdate, recvLoop_eq, idLoop_eq] at h
+  rcases res_cases (g.netcode.update d) with ⟨ns0, h0⟩ | ⟨m0, h0⟩
+  · rw [h0] at h
+    simp only [Res.bind_ok] at h
+    rcases res_cases (handleLoop (ppF a) { g with netcode := ns0 } inbox #[]) with ⟨⟨g1, out1⟩, h1⟩ | ⟨m1, h1⟩
+    · have hi1 := handleLoop_inv hP _ _ _ _ _ h1 hi
+      rw [h1] at h
+      simp only [Res.bind_ok] at h
+      rcases res_cases (handleLoop (ucF a) g1 g1.netcode.clientsId out1) with ⟨⟨g2, out2⟩, h2⟩ | ⟨m2, h2⟩
+      · have hi2 := handleLoop_inv hP _ _ _ _ _ h2 hi1
+        rw [h2] at h
+        simp only [Res.bind_ok] at h
+        obtain ⟨ns, x, hx⟩ := handleLoop_panic hP _ _ _ _ hi2 h
+        obtain ⟨r, s', e⟩ := disconnect_total a ns x
+        have hx' : ns.disconnect a x = .panic m := hx
+        rw [e] at hx'; cases hx'
+      · rw [h2] at h
+        simp only [Res.bind_panic, Res.panic.injEq] at h
+        subst h
+        obtain ⟨ns, x, hx⟩ := handleLoop_panic hP _ _ _ _ hi1 h2
+        exact .updateClient ns x hx
+    · rw [h1] at h
+      simp only [Res.bind_panic, Res.panic.injEq] at h
+      subst h
+      obtain ⟨ns, x, hx⟩ := handleLoop_panic hP _ { g with netcode := ns0 } _ _ hi h1
+      exact .processPacket ns x.1 x.2 hx
+  · rw [h0] at h
+    simp only [Res.bind_panic, Res.panic.injEq] at h
+    subst h
+    exact .update _ _ h0
+
+theorem serverUpdate_inv {P : SliceCtor → Prop} (hP : GoodP P) {a : AEAD} {g g' : ServerGlue} {d : Nat}
+    {inbox : List Dgram} {out : Array Dgram} (hi : g.renet.InvP P) (h : serverUpdate a g d inbox = .ok (g', out)) :
+    g'.renet.InvP P := by
+  obtain ⟨ns0, g1, out1, g2, out2, _, l1, l2, l3⟩ := serverUpdate_unfold h
+  exact handleLoop_inv hP _ _ _ _ _ l3 (handleLoop_inv hP _ _ _ _ _ l2 (handleLoop_inv hP _ _ _ _ _ l1 hi))
+
+/-- `disconnect_all` never unwinds -/
+theorem serverDisconnectAll_total {P : SliceCtor → Prop} (hP : GoodP P) (a : AEAD) {g : ServerGlue}
+    (hi : g.renet.InvP P) : ∃ g' out, serverDisconnectAll a g = .ok (g', out) ∧ g'.renet.InvP P := by
+  unfold serverDisconnectAll
+  rw [idLoop_eq]
+  rcases res_cases (handleLoop (dcF a) g g.netcode.clientsId #[]) with ⟨⟨g1, out1⟩, h1⟩ | ⟨m1, h1⟩
+  · exact ⟨g1, out1, h1, handleLoop_inv hP _ _ _ _ _ h1 hi⟩
+  · obtain ⟨ns, x, hx⟩ := handleLoop_panic hP _ _ _ _ hi h1
+    obtain ⟨r, s', e⟩ := disconnect_total a ns x
+    have hx' : ns.disconnect a x = .panic m1 := hx
+    rw [e] at hx'; cases hx'
+
+theorem sendClient_panic (a : AEAD) (id : Nat) : ∀ (ps : List Bytes) (ns : NetcodeServer) (out : Array Dgram) (m : String),
+    serverSendClient a ns id ps out = .panic m → NcPanic a m
+  | [], ns, out, m, h => by cases h
+  | p :: rest, ns, out, m, h => by
+    simp only [serverSendClient] at h
+    split at h
+    · rename_i m' hm
+      cases h
+      exact .generatePayloadPacket ns id p hm
+    · cases h
+    · exact sendClient_panic a id rest _ _ m h
+
+/-- the `get_packets_to_send(client_id).unwrap()` of `send_packets` is never reached with `Err`: the loop runs over
+    keys of the connection table, and nothing in the loop removes a key.  Any unwinding of `send_packets` is that of a
+    connection's `get_packets_to_send` or of netcode's `generate_payload_packet`. -/
+theorem sendLoop_panic (a : AEAD) : ∀ (l : List Nat) (g : ServerGlue) (out : Array Dgram) (m : String),
+    (∀ id ∈ l, SMap.contains g.renet.conns id = true) → serverSendLoop a g l out = .panic m →
+    (∃ c : Conn, c.getPacketsToSend = .panic m) ∨ NcPanic a m
+  | [], g, out, m, _, h => by cases h
+  | id :: rest, g, out, m, hk, h => by
+    obtain ⟨c, hf⟩ := find_of_contains (hk id List.mem_cons_self)
+    rcases res_cases c.getPacketsToSend with ⟨⟨c', ps⟩, hc⟩ | ⟨m1, hc⟩
+    · have hg : g.renet.getPacketsToSend id = .ok ({ g.renet with conns := SMap.insert g.renet.conns id c' }, some ps) := by
+        unfold Server.getPacketsToSend
+        rw [hf]
+        simp only [hc, Res.bind_ok, Res.pure_eq]
+      obtain ⟨_, q, _⟩ := SL.Server.getPacketsToSend_spec hg
+      simp only [serverSendLoop, hg, Res.bind_ok] at h
+      rcases res_cases (serverSendClient a g.netcode id ps out) with ⟨⟨ns, out1⟩, h1⟩ | ⟨m1, h1⟩
+      · rw [h1] at h
+        simp only [Res.bind_ok] at h
+        refine sendLoop_panic a rest _ out1 m (fun j hj => ?_) h
+        show SMap.contains (SMap.insert g.renet.conns id c') j = true
+        have := q.contains j
+        simp only at this
+        rw [this]
+        exact hk j (List.mem_cons_of_mem _ hj)
+      · rw [h1] at h
+        simp only [Res.bind_panic, Res.panic.injEq] at h
+        subst h
+        exact Or.inr (sendClient_panic a id ps _ _ _ h1)
+    · left
+      refine ⟨c, ?_⟩
+      have hg : g.renet.getPacketsToSend id = .panic m1 := by
+        unfold Server.getPacketsToSend
+        rw [hf]
+        simp only [hc, Res.bind_panic]
+      simp only [serverSendLoop, hg, Res.bind_panic, Res.panic.injEq] at h
+      subst h
+      exact hc
+
+theorem serverSendPackets_panic_partial {a : AEAD} {g : ServerGlue} {m : String}
+    (h : serverSendPackets a g = .panic m) : (∃ c : Conn, c.getPacketsToSend = .panic m) ∨ NcPanic a m :=
+  sendLoop_panic a _ g _ m (fun _ hid => contains_of_mem_clientsId hid) h
+
+/-! #### client -/
+
+theorem cinv_disconnect (a : AEAD) {nc : NetcodeClient} (h : NetcodeClient.CInv nc) :
+    NetcodeClient.CInv (nc.disconnect a).2 :=
+  ⟨h.start_le, h.send_le, h.recv_le, h.addrs, h.timeout⟩
+
+theorem clientRecvLoop_total {P : SliceCtor → Prop} (hP : GoodP P) (a : AEAD) :
+    ∀ (l : List Dgram) (g : ClientGlue), NetcodeClient.CInv g.netcode → g.renet.InvP P →
+    ∃ g', clientRecvLoop a g l = .ok g' ∧ NetcodeClient.CInv g'.netcode ∧ g'.renet.InvP P ∧
+      g'.netcode.sequence = g.netcode.sequence ∧ g'.netcode.currentTime = g.netcode.currentTime
+  | [], g, hc, hi => ⟨g, rfl, hc, hi, rfl, rfl⟩
+  | (addr, buf) :: rest, g, hc, hi => by
+    simp only [clientRecvLoop]
+    split
+    · exact clientRecvLoop_total hP a rest g hc hi
+    · obtain ⟨p, nc, e⟩ := NetcodeClient.processPacket_total a g.netcode buf
+      obtain ⟨hc', hs, ht⟩ := NetcodeClient.processPacket_cinv a hc e
+      rw [e]
+      simp only [Res.bind_ok]
+      cases p with
+      | none =>
+        obtain ⟨g', e', c1, c2, c3, c4⟩ := clientRecvLoop_total hP a rest { g with netcode := nc } hc' hi
+        exact ⟨g', e', c1, c2, c3.trans hs, c4.trans ht⟩
+      | some p =>
+        obtain ⟨rc, er, hi', _⟩ := CI.processPacket_totalP hP hi p
+        simp only [er, Res.bind_ok]
+        obtain ⟨g', e', c1, c2, c3, c4⟩ := clientRecvLoop_total hP a rest { netcode := nc, renet := rc } hc' hi'
+        exact ⟨g', e', c1, c2, c3.trans hs, c4.trans ht⟩
+
+/-- **`update` (client) never unwinds**, whatever is queued at the socket, while the netcode client satisfies its
+    invariant, the renet client its own, the clock stays below `Duration::MAX` minus the largest timeout and the
+    datagram counter below `u64::MAX` -/
+theorem clientUpdate_total {P : SliceCtor → Prop} (hP : GoodP P) (a : AEAD) {g : ClientGlue} (d : Nat)
+    (inbox : List Dgram) (hc : NetcodeClient.CInv g.netcode) (hi : g.renet.InvP P)
+    (ht : g.netcode.currentTime + d + NetcodeClient.TIMEOUT_MAX_NS ≤ DURATION_MAX)
+    (hseq : g.netcode.sequence + 1 ≤ U64_MAX) :
+    ∃ o, clientUpdate a g d inbox = .ok o ∧ NetcodeClient.CInv o.g.netcode ∧ o.g.renet.InvP P := by
+  cases hn : g.netcode.disconnectReason with
+  | some reason =>
+    rw [clientUpdate_netcode_disconnected hn]
+    exact ⟨_, rfl, hc, hi.disconnectWith _⟩
+  | none =>
+    cases hr : g.renet.disconnectReason with
+    | some error =>
+      rw [clientUpdate_renet_disconnected hn hr]
+      cases hd : (g.netcode.disconnect a).1 with
+      | ok v => obtain ⟨addr, pkt⟩ := v; exact ⟨_, rfl, cinv_disconnect a hc, hi⟩
+      | err e => exact ⟨_, rfl, cinv_disconnect a hc, hi⟩
+      | panic m =>
+        exfalso
+        unfold NetcodeClient.disconnect at hd
+        dsimp only at hd
+        rcases hp : Packet.disconnect.encode a C.NETCODE_MAX_PACKET_BYTES g.netcode.connectToken.protocolId
+            (some (g.netcode.sequence, g.netcode.connectToken.clientToServerKey)) with out | e | m'
+        · rw [hp] at hd; cases hd
+        · rw [hp] at hd; cases hd
+        · exact Packet.encode_no_panic a _ _ _ _ m' hp
+    | none =>
+      rw [clientUpdate_alive hn hr]
+      have him : (mirror g).InvP P := by
+        unfold mirror
+        split
+        · exact hi.setConnected
+        · split
+          · exact hi.setConnecting
+          · exact hi
+      obtain ⟨g1, e1, c1, c2, c3, c4⟩ := clientRecvLoop_total hP a inbox { g with renet := mirror g } hc him
+      obtain ⟨o, nc, e2, c5⟩ := NetcodeClient.update_total a g1.netcode d c1 (by rw [c4]; exact ht) (by rw [c3]; exact hseq)
+      rw [e1]
+      simp only [Res.bind_ok, e2]
+      cases o with
+      | none => exact ⟨_, rfl, c5, c2⟩
+      | some v => obtain ⟨pkt, addr⟩ := v; exact ⟨_, rfl, c5, c2⟩
+
+/-! ## Part 8 : "reported connected" = "in the netcode table" -/
+
+/-- a connection's status stays or becomes `Disconnected` -/
+def StatusStep (c c' : Conn) : Prop := c'.status = c.status ∨ ∃ r, c'.status = .disconnected r
+
+theorem StatusStep.refl (c : Conn) : StatusStep c c := Or.inl rfl
+
+theorem StatusStep.live {c c' : Conn} (h : StatusStep c c') (hc : c.status ≠ .connecting) : c'.status ≠ .connecting := by
+  rcases h with h | ⟨r, h⟩
+  · rw [h]; exact hc
+  · rw [h]; intro e; cases e
+
+theorem statusStep_dw (c : Conn) (r : Reason) : StatusStep c (c.disconnectWith r) := by
+  rw [StatusStep, SL.Conn.disconnectWith_status]
+  split
+  · exact Or.inl rfl
+  · exact Or.inr ⟨r, rfl⟩
+
+theorem statusStep_sendMessage {c c' : Conn} {ch : Nat} {m : Bytes} (h : c.sendMessage ch m = .ok c') :
+    StatusStep c c' := by
+  unfold Conn.sendMessage at h
+  split at h
+  · cases h; exact .refl c
+  · split at h
+    · split at h
+      · cases h; exact Or.inl rfl
+      · cases h; exact statusStep_dw c _
+    · split at h
+      · cases h; exact Or.inl rfl
+      · cases h
+
+theorem statusStep_receiveMessage {c c' : Conn} {ch : Nat} {m : Option Bytes} (h : c.receiveMessage ch = .ok (c', m)) :
+    StatusStep c c' := Or.inl (SL.Conn.receiveMessage_frame h).2.2.2.1
+
+theorem statusStep_update {c c' : Conn} {dt : Nat} (h : c.update dt = .ok c') : StatusStep c c' :=
+  Or.inl (SL.Conn.update_status h)
+
+theorem statusStep_processPacket {P : SliceCtor → Prop} (hP : GoodP P) {c c' : Conn} {b : Bytes} (hi : c.InvP P)
+    (h : c.processPacket b = .ok c') : StatusStep c c' := by
+  obtain ⟨c1, e, _, hs, _⟩ := CI.processPacket_totalP hP hi b
+  rw [e] at h
+  cases h
+  exact hs
+
+theorem statusStep_getPacketsToSend {c c' : Conn} {out : List Bytes} (h : c.getPacketsToSend = .ok (c', out)) :
+    StatusStep c c' := by
+  unfold Conn.getPacketsToSend at h
+  split at h
+  · cases h; exact .refl c
+  · obtain ⟨⟨sr, su, pk, seq, av⟩, _, h⟩ := CI.bind_ok_cases h
+    dsimp only at h
+    obtain ⟨sent, _, h⟩ := CI.bind_ok_cases h
+    split at h
+    · cases h; exact Or.inl rfl
+    · cases h
+      rename_i e _
+      exact statusStep_dw _ _
+    · cases h
+
+/-- no connection of the server is `Connecting` (they are created `Connected`) -/
+def Live (rs : Server) : Prop := ∀ id c, SMap.find? rs.conns id = some c → c.status ≠ .connecting
+
+theorem live_addressed {i : Nat} {s s' : Server} (ad : SL.Server.Addressed i s s')
+    (h : s' = s ∨ ∃ c c', SMap.find? s.conns i = some c ∧ StatusStep c c' ∧ SMap.find? s'.conns i = some c')
+    (hl : Live s) : Live s' := by
+  rcases h with h | ⟨c, c', h1, h2, h3⟩
+  · rw [h]; exact hl
+  · intro j x hx
+    by_cases e : j = i
+    · subst e
+      rw [h3] at hx; cases hx
+      exact h2.live (hl j c h1)
+    · rw [ad.others j e] at hx
+      exact hl j x hx
+
+theorem live_all {s s' : Server}
+    (h : ∀ j, (SMap.find? s.conns j = none → SMap.find? s'.conns j = none) ∧
+      (∀ c, SMap.find? s.conns j = some c → ∃ c', StatusStep c c' ∧ SMap.find? s'.conns j = some c'))
+    (hl : Live s) : Live s' := by
+  intro j x hx
+  cases hf : SMap.find? s.conns j with
+  | none => rw [(h j).1 hf] at hx; cases hx
+  | some c =>
+    obtain ⟨c', h1, h2⟩ := (h j).2 c hf
+    rw [h2] at hx; cases hx
+    exact h1.live (hl j c hf)
+
+theorem fromChannels_status (b : Nat) (sc cc : List ChanCfg) : (Conn.fromChannels b sc cc).status = .connecting := rfl
+
+theorem live_addConnection {rs : Server} (hl : Live rs) (id : Nat) : Live (rs.addConnection id) := by
+  unfold Server.addConnection
+  split
+  · exact hl
+  · intro j x hx
+    by_cases e : j = id
+    · subst e
+      rw [SL.SMap.find?_insert_self] at hx
+      cases hx
+      simp [Server.newConn, Conn.setConnected, Conn.isDisconnected, fromChannels_status]
+    · rw [SL.SMap.find?_insert_ne _ _ _ _ e] at hx
+      exact hl j x hx
+
+theorem live_removeConnection {rs : Server} (hs : SL.SMap.Sorted rs.conns) (hl : Live rs) (id : Nat) :
+    Live (rs.removeConnection id) := by
+  intro j x hx
+  by_cases e : j = id
+  · subst e
+    rw [removeConnection_find_self rs hs j] at hx; cases hx
+  · rw [SL.removeConnection_frame rs id j e] at hx
+    exact hl j x hx
+
+theorem live_handle {P : SliceCtor → Prop} (hP : GoodP P) {r : ServerResult} {rs rs' : Server} {out out' : Array Dgram}
+    (h : handleServerResult r rs out = .ok (rs', out')) (hi : rs.InvP P) (hs : SL.SMap.Sorted rs.conns) (hl : Live rs) :
+    Live rs' := by
+  have hr := handle_renet h
+  cases r with
+  | none => simp only at hr; rw [hr]; exact hl
+  | packetToSend addr p => simp only at hr; rw [hr]; exact hl
+  | payload id p =>
+    simp only at hr
+    obtain ⟨ok, hp⟩ := hr
+    obtain ⟨ad, _, hc⟩ := SL.Server.processPacketFrom_spec hp
+    refine live_addressed ad ?_ hl
+    rcases hc with ⟨_, e, _⟩ | ⟨c, c', h1, h2, _, h3⟩
+    · exact Or.inl e
+    · exact Or.inr ⟨c, c', h1, statusStep_processPacket hP (hi.find h1).1 h2, h3⟩
+  | clientConnected id addr ud p => simp only at hr; rw [hr]; exact live_addConnection hl id
+  | clientDisconnected id addr p => simp only at hr; rw [hr]; exact live_removeConnection hs hl id
+
+theorem handleLoop_live {P : SliceCtor → Prop} (hP : GoodP P) {α : Type}
+    {f : NetcodeServer → α → Res Empty (ServerResult × NetcodeServer)}
+    (hf : ∀ ns x r ns', f ns x = .ok (r, ns') → TStep ns.clients ns'.clients r) :
+    ∀ (l : List α) (g g' : ServerGlue) (out out' : Array Dgram), handleLoop f g l out = .ok (g', out') →
+    LockStep g → g.renet.InvP P → Live g.renet → Live g'.renet
+  | [], g, g', out, out', h, _, _, hl => by cases h; exact hl
+  | x :: rest, g, g', out, out', h, hk, hi, hl => by
+    obtain ⟨r, ns, rs, out1, h1, h2, h3⟩ := handleLoop_cons h
+    obtain ⟨hk1, _⟩ := lockStep_handle hk (hf _ _ _ _ h1) h2
+    obtain ⟨rs', out1', e, hi'⟩ := handle_total hP hi r out
+    rw [e] at h2
+    simp only [Res.ok.injEq, Prod.mk.injEq] at h2
+    obtain ⟨e1, e2⟩ := h2
+    subst e1; subst e2
+    exact handleLoop_live hP hf rest _ g' _ out' h3 hk1 hi' (live_handle hP e hi hk.sorted hl)
+
+theorem serverUpdate_live {P : SliceCtor → Prop} (hP : GoodP P) {a : AEAD} {g g' : ServerGlue} {d : Nat}
+    {inbox : List Dgram} {out : Array Dgram} (h : serverUpdate a g d inbox = .ok (g', out))
+    (hk : LockStep g) (hi : g.renet.InvP P) (hl : Live g.renet) : Live g'.renet := by
+  obtain ⟨ns0, g1, out1, g2, out2, h0, l1, l2, l3⟩ := serverUpdate_unfold h
+  have hk0 : LockStep { g with netcode := ns0 } := by
+    refine ⟨?_, hk.sorted, ?_⟩
+    · show (ids ns0.clients).Nodup
+      rw [update_clients h0]; exact hk.nodup
+    · intro id
+      show _ ↔ id ∈ ids ns0.clients
+      rw [update_clients h0]; exact hk.sync id
+  have hk1 := handleLoop_lockstep' (ppF_tstep a) l1 hk0
+  have hk2 := handleLoop_lockstep' (ucF_tstep a) l2 hk1
+  have hi1 := handleLoop_inv hP _ _ _ _ _ l1 hi
+  have hi2 := handleLoop_inv hP _ _ _ _ _ l2 hi1
+  have hl1 := handleLoop_live hP (ppF_tstep a) _ _ _ _ _ l1 hk0 hi hl
+  have hl2 := handleLoop_live hP (ucF_tstep a) _ _ _ _ _ l2 hk1 hi1 hl1
+  exact handleLoop_live hP (dcF_tstep a) _ _ _ _ _ l3 hk2 hi2 hl2
+
+theorem find_of_mem_sorted {α : Type} : ∀ {m : SMap α}, SL.SMap.Sorted m → ∀ {k : Nat} {v : α}, (k, v) ∈ m →
+    SMap.find? m k = some v
+  | [], _, k, v, h => by cases h
+  | (k', v') :: r, hs, k, v, h => by
+    rw [SL.SMap.sorted_cons] at hs
+    simp only [SMap.find?]
+    rcases List.mem_cons.mp h with e | e
+    · cases e; simp
+    · have hk : k ∈ SMap.keys r := List.mem_map.mpr ⟨(k, v), e, rfl⟩
+      have := hs.1 k hk
+      rw [if_neg (by omega)]
+      exact find_of_mem_sorted hs.2 e
+
+theorem mem_clientsId_iff {rs : Server} (hs : SL.SMap.Sorted rs.conns) (j : Nat) :
+    j ∈ rs.clientsId ↔ ∃ c, SMap.find? rs.conns j = some c ∧ c.isConnected = true := by
+  unfold Server.clientsId
+  constructor
+  · intro h
+    obtain ⟨x, hx, rfl⟩ := List.mem_map.mp h
+    obtain ⟨hm, hc⟩ := List.mem_filter.mp hx
+    exact ⟨x.2, find_of_mem_sorted hs hm, hc⟩
+  · rintro ⟨c, hf, hc⟩
+    exact List.mem_map.mpr ⟨(j, c), List.mem_filter.mpr ⟨SMap.mem_of_find? hf, hc⟩, rfl⟩
+
+/-- **after an `update`, "reported connected" = "in the netcode table".**  `RenetServer::clients_id()` (the connected
+    ones) and `NetcodeServer::clients_id()` (handshake completed, session not ended) have the same members. -/
+theorem connected_exactly {P : SliceCtor → Prop} (hP : GoodP P) {a : AEAD} {g g' : ServerGlue} {d : Nat}
+    {inbox : List Dgram} {out : Array Dgram} (h : serverUpdate a g d inbox = .ok (g', out))
+    (hk : LockStep g) (hi : g.renet.InvP P) (hl : Live g.renet) :
+    ∀ id, id ∈ g'.renet.clientsId ↔ id ∈ g'.netcode.clientsId := by
+  obtain ⟨hk', hnd⟩ := serverUpdate_lockstep h hk
+  have hl' := serverUpdate_live hP h hk hi hl
+  intro id
+  rw [mem_clientsId_iff hk'.sorted, ← hk'.sync id]
+  constructor
+  · rintro ⟨c, hf, _⟩
+    exact contains_of_find hf
+  · intro hc
+    obtain ⟨c, hf⟩ := find_of_contains hc
+    refine ⟨c, hf, ?_⟩
+    have h1 := hnd id c hf
+    have h2 := hl' id c hf
+    unfold Conn.isDisconnected at h1
+    unfold Conn.isConnected
+    cases hs : c.status with
+    | connected => rfl
+    | connecting => exact absurd hs h2
+    | disconnected r => rw [hs] at h1; cases h1
+
+/-- between updates: whoever renet reports connected is in the netcode table -/
+theorem connected_subset {g : ServerGlue} (hk : LockStep g) : ∀ id, id ∈ g.renet.clientsId → id ∈ g.netcode.clientsId :=
+  fun id h => (hk.sync id).mp (contains_of_mem_clientsId h)
+
+theorem appOp_live {P : SliceCtor → Prop} (hP : GoodP P) {st st' : SL.SrvState} {op : SL.SrvOp} (ha : appOp op = true)
+    (hv : CI.SrvValid st.1 op) (h : op.apply st = .ok st') (hi : st.1.InvP P) (hl : Live st.1) : Live st'.1 := by
+  obtain ⟨s, popped⟩ := st
+  cases op with
+  | add id => cases ha
+  | remove id => cases ha
+  | newLocalClient id => cases ha
+  | disconnectLocalClient id cl => cases ha
+  | disconnect id =>
+    cases h
+    obtain ⟨ad, _, hf⟩ := SL.Server.disconnect_spec s id
+    refine live_addressed ad ?_ hl
+    cases hc : SMap.find? s.conns id with
+    | none =>
+      left
+      show s.disconnect id = s
+      unfold Server.disconnect; rw [hc]
+    | some c =>
+      right
+      rw [hc] at hf
+      exact ⟨c, _, rfl, statusStep_dw c _, hf⟩
+  | disconnectAll =>
+    cases h
+    refine live_all (fun j => ⟨fun hn => ?_, fun c hc => ?_⟩) hl
+    · show SMap.find? s.disconnectAll.conns j = none
+      rw [SL.Server.disconnectAll_find, hn]; rfl
+    · exact ⟨_, statusStep_dw c _, by show SMap.find? s.disconnectAll.conns j = _; rw [SL.Server.disconnectAll_find, hc]; rfl⟩
+  | broadcast ch m =>
+    obtain ⟨h1, h2⟩ := SL.keepPopped_ok h
+    obtain ⟨_, _, hp⟩ := SL.Server.broadcast_spec h1
+    refine live_all (fun j => ⟨(hp j).1, fun c hc => ?_⟩) hl
+    obtain ⟨c', e1, e2⟩ := (hp j).2 c hc
+    exact ⟨c', statusStep_sendMessage e1, e2⟩
+  | broadcastExcept ex ch m =>
+    obtain ⟨h1, h2⟩ := SL.keepPopped_ok h
+    obtain ⟨_, _, hex, hp⟩ := SL.Server.broadcastExcept_spec h1
+    refine live_all (fun j => ?_) hl
+    by_cases e : j = ex
+    · subst e
+      exact ⟨fun hn => by rw [hex]; exact hn, fun c hc => ⟨c, .refl c, by rw [hex]; exact hc⟩⟩
+    · refine ⟨(hp j e).1, fun c hc => ?_⟩
+      obtain ⟨c', e1, e2⟩ := (hp j e).2 c hc
+      exact ⟨c', statusStep_sendMessage e1, e2⟩
+  | update dt =>
+    obtain ⟨h1, h2⟩ := SL.keepPopped_ok h
+    obtain ⟨_, _, hp⟩ := SL.Server.update_spec h1
+    refine live_all (fun j => ⟨(hp j).1, fun c hc => ?_⟩) hl
+    obtain ⟨c', e1, e2⟩ := (hp j).2 c hc
+    exact ⟨c', statusStep_update e1, e2⟩
+  | send id ch m =>
+    obtain ⟨h1, h2⟩ := SL.keepPopped_ok h
+    obtain ⟨ad, _, hc⟩ := SL.Server.sendMessage_spec h1
+    refine live_addressed ad ?_ hl
+    rcases hc with ⟨_, e⟩ | ⟨c, c', e1, e2, e3⟩
+    · exact Or.inl e
+    · exact Or.inr ⟨c, c', e1, statusStep_sendMessage e2, e3⟩
+  | receive id ch =>
+    obtain ⟨h1, h2⟩ := SL.keepPopped_ok h
+    obtain ⟨o, h3⟩ := SL.Res.stateOf_ok h1
+    obtain ⟨ad, _, hc⟩ := SL.Server.receiveMessage_spec h3
+    refine live_addressed ad ?_ hl
+    rcases hc with ⟨_, e, _⟩ | ⟨c, c', e1, e2, e3⟩
+    · exact Or.inl e
+    · exact Or.inr ⟨c, c', e1, statusStep_receiveMessage e2, e3⟩
+  | getPacketsToSend id =>
+    obtain ⟨h1, h2⟩ := SL.keepPopped_ok h
+    obtain ⟨o, h3⟩ := SL.Res.stateOf_ok h1
+    obtain ⟨ad, _, hc⟩ := SL.Server.getPacketsToSend_spec h3
+    refine live_addressed ad ?_ hl
+    rcases hc with ⟨_, e, _⟩ | ⟨c, c', ps, e1, e2, _, e3⟩
+    · exact Or.inl e
+    · exact Or.inr ⟨c, c', e1, statusStep_getPacketsToSend e2, e3⟩
+  | processPacketFrom b id =>
+    obtain ⟨h1, h2⟩ := SL.keepPopped_ok h
+    obtain ⟨o, h3⟩ := SL.Res.stateOf_ok h1
+    obtain ⟨ad, _, hc⟩ := SL.Server.processPacketFrom_spec h3
+    refine live_addressed ad ?_ hl
+    rcases hc with ⟨_, e, _⟩ | ⟨c, c', e1, e2, _, e3⟩
+    · exact Or.inl e
+    · exact Or.inr ⟨c, c', e1, statusStep_processPacket hP (hi.find e1).1 e2, e3⟩
+  | processLocalClient id cl => exact hv.elim
+  | getEvent =>
+    cases h
+    show Live (s.getEvent).1
+    unfold Server.getEvent
+    split <;> exact hl
+
+/-! #### the strong invariant along any run -/
+
+/-- lock-step, event alternation, the renet invariant, and no server-side connection `Connecting` -/
+def GInv2 (P : SliceCtor → Prop) (st : GState) : Prop :=
+  GInv st ∧ st.1.renet.InvP P ∧ Live st.1.renet
+
+/-- side conditions of a run: application calls are application calls (`appOp`) and name existing channels
+    (`SrvValid`) -/
+def GPre (a : AEAD) (st : GState) : List GlueOp → Prop
+  | [] => True
+  | op :: rest =>
+    (match op with
+     | .app sop => appOp sop = true ∧ CI.SrvValid st.1.renet sop
+     | _ => True) ∧
+    ∀ st', op.apply a st = .ok st' → GPre a st' rest
+
+theorem sendLoop_inv_live {P : SliceCtor → Prop} (a : AEAD) :
+    ∀ (l : List Nat) (g g' : ServerGlue) (out out' : Array Dgram), serverSendLoop a g l out = .ok (g', out') →
+    g.renet.InvP P → Live g.renet → g'.renet.InvP P ∧ Live g'.renet
+  | [], g, g', out, out', h, hi, hl => by cases h; exact ⟨hi, hl⟩
+  | id :: rest, g, g', out, out', h, hi, hl => by
+    obtain ⟨rs, ps, ns, out1, h1, h2, h3⟩ := sendLoop_cons h
+    obtain ⟨ad, _, hc⟩ := SL.Server.getPacketsToSend_spec h1
+    rcases hc with ⟨_, _, e⟩ | ⟨c, c', ps', e1, e2, e3, e4⟩
+    · cases e
+    · have hi1 : rs.InvP P := by
+        have hrs : rs = { g.renet with conns := SMap.insert g.renet.conns id c' } := by
+          unfold Server.getPacketsToSend at h1
+          rw [e1] at h1
+          simp only [e2, Res.bind_ok, Res.pure_eq, Res.ok.injEq, Prod.mk.injEq] at h1
+          exact h1.1.symm
+        rw [hrs]
+        obtain ⟨ic, sc⟩ := hi.find e1
+        exact hi.setConn id (CI.getPacketsToSend_invP ic e2) (sc.trans (CI.getPacketsToSend_sameChansP ic e2))
+      have hl1 : Live rs := live_addressed ad (Or.inr ⟨c, c', e1, statusStep_getPacketsToSend e2, e4⟩) hl
+      exact sendLoop_inv_live a rest _ g' out1 out' h3 hi1 hl1
+
+theorem GlueOp.apply_inv2 {P : SliceCtor → Prop} (hP : GoodP P) {a : AEAD} {st st' : GState} {op : GlueOp}
+    (h : op.apply a st = .ok st')
+    (hv : match op with
+      | .app sop => appOp sop = true ∧ CI.SrvValid st.1.renet sop
+      | _ => True)
+    (hi : GInv2 P st) : GInv2 P st' := by
+  obtain ⟨hg, hin, hl⟩ := hi
+  have hallowed : op.allowed = true := by
+    cases op with
+    | app sop => exact hv.1
+    | _ => rfl
+  refine ⟨(GlueOp.apply_inv h hallowed hg).1, ?_⟩
+  obtain ⟨g, popped⟩ := st
+  cases op with
+  | update d inbox =>
+    simp only [GlueOp.apply] at h
+    obtain ⟨⟨g1, out⟩, h1, h2⟩ := CI.bind_ok_cases h
+    cases h2
+    exact ⟨serverUpdate_inv hP hin h1, serverUpdate_live hP h1 hg.1 hin hl⟩
+  | sendPackets =>
+    simp only [GlueOp.apply] at h
+    obtain ⟨⟨g1, out⟩, h1, h2⟩ := CI.bind_ok_cases h
+    cases h2
+    exact sendLoop_inv_live a _ _ _ _ _ h1 hin hl
+  | disconnectAll =>
+    simp only [GlueOp.apply] at h
+    obtain ⟨⟨g1, out⟩, h1, h2⟩ := CI.bind_ok_cases h
+    cases h2
+    unfold serverDisconnectAll at h1
+    rw [idLoop_eq] at h1
+    exact ⟨handleLoop_inv hP _ _ _ _ _ h1 hin, handleLoop_live hP (dcF_tstep a) _ _ _ _ _ h1 hg.1 hin hl⟩
+  | app sop =>
+    simp only [GlueOp.apply] at h
+    obtain ⟨st1, h1, h2⟩ := CI.bind_ok_cases h
+    cases h2
+    obtain ⟨st2, e, i2, _⟩ := CI.srvApply_totalP hP (st := (g.renet, popped)) hin sop hv.2
+    rw [e] at h1
+    cases h1
+    exact ⟨i2, appOp_live hP hv.1 hv.2 e hin hl⟩
+
+theorem runGlue_inv2 {P : SliceCtor → Prop} (hP : GoodP P) (a : AEAD) :
+    ∀ (ops : List GlueOp) (st st' : GState), runGlue a st ops = .ok st' → GPre a st ops → GInv2 P st → GInv2 P st'
+  | [], st, st', h, _, hi => by cases h; exact hi
+  | op :: rest, st, st', h, hp, hi => by
+    unfold runGlue at h
+    split at h
+    · rename_i st1 h1
+      exact runGlue_inv2 hP a rest st1 st' h (hp.2 st1 h1) (GlueOp.apply_inv2 hP h1 hp.1 hi)
+    · cases h
+    · cases h
+
+theorem gInv2_fresh {P : SliceCtor → Prop} {ns : NetcodeServer} (h : ns.clientsId = []) (budget : Nat)
+    (sc cc : List ChanCfg) : GInv2 P ({ netcode := ns, renet := Server.new budget sc cc }, []) :=
+  ⟨gInv_fresh h budget sc cc, CI.server_new_invP budget sc cc, fun _ _ hf => by simp [Server.new, SMap.find?] at hf⟩
 
 end RenetVerif.GI
